@@ -32,6 +32,7 @@ def OVERLAY_SPLIT(op):
 
 
 TAG_RULES = [
+    (r'cumulative_gains::fn calc_cumulative_capital_gains', ['C06', 'C08']),   # aggregate = sum over securities: adding a security changes it by that security's own totals
     (r'cumulative_gains::', ['C06']),
     (r'approot::', ['C08', 'C04', 'C06']),
 ] + bk.TAG_RULES
